@@ -237,6 +237,7 @@ func (m msgServer) RecvPacket(
 
 		// Perform application logic callback
 		_, ack, err := cbs.OnRecvPacket(ctx, msg.Packet)
+		m.verifCallback(ctx, "recv", msg.Packet, ack, err)
 		if err != nil {
 			return nil, errorsmod.Wrap(
 				err,
@@ -297,6 +298,7 @@ func (m msgServer) Acknowledgement(
 
 	// Perform application logic callback
 	_, err := cbs.OnAcknowledgementPacket(ctx, msg.Packet, msg.Acknowledgement)
+	m.verifCallback(ctx, "ack", msg.Packet, msg.Acknowledgement, err)
 	if err != nil {
 		return nil, errorsmod.Wrap(
 			err,
